@@ -353,12 +353,16 @@ def freq_shift(z, /, shift):
 
     it = np.nditer(ft * len(x), flags=["multi_index"])
     for a in it:
+        # Length-1 axes of shift are broadcast over the whole sample axis
+        el = tuple(
+            slice(None) if n == 1 else i for i, n in zip(it.multi_index, ft.shape)
+        )
         if a < 0:
             a = int(np.floor(a))
-            ix = (np.s_[a:],) + it.multi_index
+            ix = (np.s_[a:],) + el
         else:
             a = int(np.ceil(a))
-            ix = (np.s_[:a],) + it.multi_index
+            ix = (np.s_[:a],) + el
 
         x[ix] = 0
 
